@@ -153,10 +153,13 @@ def run(ctx, rep):
                     if "PtrMetadata" in sl["ops"] or any(re.search(r"::len$", callee_name(c)) for c in sl["calls"]):
                         k = _g.const_arg(rb, rv["b"])
                         mins.append((rv["op"], k))
-        rep.check("C16.sync", "the sync test looks at exactly one buffered byte after 0xFF (it must work however the source splits its reads)", ("Ge", 1) in mins and all(m in (("Ge", 1), ("Eq", 0)) for m in mins), loc_of(rb), str(mins),
+        firsts = [t for _, t in rb.calls() if re.search(r"<impl \[T\]>::first$", callee_name(t))]
+        one_byte = (("Ge", 1) in mins or (len(firsts) == 1 and not mins)) and all(m in (("Ge", 1), ("Eq", 0)) for m in mins)      # [b, ..] pattern or .first()
+        rep.check("C16.sync", "the sync test looks at exactly one buffered byte after 0xFF (it must work however the source splits its reads)", one_byte, loc_of(rb), str(mins),
                   "the scanner requires more than one buffered byte after 0xFF (%s): when a read boundary falls inside the frame header a genuine sync code is skipped and the frame is lost" % mins)
         shr = [t for _, t in rb.calls() if re.search(r"as std::ops::Shr<i32>>::shr$", callee_name(t)) and op_int(t["a"][1]) == 1]
-        eqs = [st for bl in rb.blocks for st in bl["s"] if st["rv"]["r"] == "bin" and st["rv"]["op"] == "Eq" and op_int(st["rv"]["b"]) == 0b1111100]
+        shr += [st for bl in rb.blocks for st in bl["s"] if st["rv"]["r"] == "bin" and st["rv"]["op"].startswith("Shr") and op_int(st["rv"]["b"]) == 1 and "u8" in (st["rv"].get("ty") or "u8")]
+        eqs = [st for bl in rb.blocks for st in bl["s"] if st["rv"]["r"] == "bin" and st["rv"]["op"] in ("Eq", "Ne") and op_int(st["rv"]["b"]) == 0b1111100]
         rep.check("C16.sync", "second sync byte test is (byte >> 1) == 0b1111100", len(shr) == 1 and len(eqs) == 1, loc_of(rb))
         # the checksum reader starts with the re-inserted 0xFF
         prom_ff = False
